@@ -99,6 +99,21 @@ def run (st : St) (t : List String) : String × St :=
       let h1 := handleStream st.reg (some (.register ra name))
       (answerText h1.answer ++ " probe=ok", { st with reg := h1.registry, fresh := st.fresh + 1 })
     | none => ("bad-op", st)
+  | ["lib", first, second] =>
+    -- the library reports what `handleStream` answers (`handle_reply`): Ok opens the stream, an error frame becomes
+    -- `OpenStream(code, …)`
+    match roleOf first with
+    | some ra =>
+      let name := freshName st
+      let h1 := handleStream st.reg (some (.register ra name))
+      let rb : Role := if second = "pub" then .publisher else if second = "sub" then .subscriber else .requestor
+      let h2 := handleStream h1.registry (some (.register rb name))
+      let lib := match h2.answer with
+        | .ok => "ok"
+        | .error c => s!"err:{c}"
+        | .closed => "err:closed"
+      (answerText h1.answer ++ " lib=" ++ lib ++ " probe=ok", { st with reg := h2.registry, fresh := st.fresh + 1 })
+    | none => ("bad-op", st)
   | ["iso", nsA, tpA, nsB, tpB] =>
     -- c07_names_are_distinct_keys / c11_registry_isolation: the registry is keyed by the whole name
     let a : Name := { ns := utf8Decode (unhx nsA), tp := utf8Decode (unhx tpA) }
